@@ -296,6 +296,18 @@ fn judge(h: &History, variant: u64, rec: &mut Recorder, which: Which) {
     }
 }
 
+/// One case in four is followed, on the same thread, by related histories (same constructor
+/// arguments, other explicit lengths, a failing batch) and then by itself again.
+fn run_siblings(h: &History, idx: u64, rec: &mut Recorder, which: Which) {
+    if spec::engine::small() || !spec::engine::with_history(idx, 4) || h.ops.iter().any(|o| matches!(o, Op::Write(v) if v.encode().map(|e| e.len()).unwrap_or(0) > 5000)) {
+        return;
+    }
+    let mut rng = Rng::new(idx ^ 0x51B);
+    for s in history_siblings(h, &mut rng) {
+        judge(&s, idx, rec, which);
+    }
+}
+
 fn hist_streams(tier: Tier) -> Vec<StreamSpec> {
     vec![
         exhaustive("hist-short", short_history_count(tier.n(2, 4, 5) as u32)),
@@ -303,6 +315,7 @@ fn hist_streams(tier: Tier) -> Vec<StreamSpec> {
         stream("hist-boundary", tier.n(5, 40_000, 1_000_000)),
         stream("hist-chain", tier.n(5, 10_000, 500_000)),
         stream("hist-overfull", tier.n(2, 3_000, 100_000)),
+        if tier == Tier::Miri { stream("hist-lens-s", 20) } else { exhaustive("hist-lens", lens_history_count()) },
     ]
 }
 
@@ -313,6 +326,11 @@ fn hist_case(stream_name: &str, idx: u64, seed: u64) -> History {
         "hist-boundary" => boundary_history(&mut rng),
         "hist-chain" => chain_history(&mut rng),
         "hist-overfull" => overfull_history(&mut rng),
+        "hist-lens" => lens_history(idx, &mut rng),
+        "hist-lens-s" => {
+            let i = rng.below(300 * LENS_KINDS);
+            lens_history(i, &mut rng)
+        }
         _ => rand_history(&mut rng),
     }
 }
@@ -341,6 +359,7 @@ impl Monitor for C09 {
     fn run_case(&self, stream: &str, idx: u64, seed: u64, rec: &mut Recorder) {
         let h = hist_case(stream, idx, seed);
         judge(&h, idx, rec, Which::C09);
+        run_siblings(&h, idx, rec, Which::C09);
     }
     fn floor(&self, tier: Tier) -> Vec<&'static str> {
         if tier == Tier::Miri {
@@ -373,6 +392,7 @@ impl Monitor for C10 {
     fn run_case(&self, stream: &str, idx: u64, seed: u64, rec: &mut Recorder) {
         let h = hist_case(stream, idx, seed);
         judge(&h, idx, rec, Which::C10);
+        run_siblings(&h, idx, rec, Which::C10);
     }
     fn floor(&self, tier: Tier) -> Vec<&'static str> {
         if tier == Tier::Miri {
